@@ -372,6 +372,13 @@ def matrix_of(model, params, times, clause):
         warnings.simplefilter("ignore")
         dm = fill_item(model.dataset["d1"], model, params)
         mc = dm.megacomplex[0]
+        if t.size >= 3 and t.max() > t.min():
+            # first a decoy: another time axis of the same length and end points
+            decoy = t.min() + (t.max() - t.min()) * ((axis - t.min()) / (t.max() - t.min())) ** 2
+            try:
+                mc.calculate_matrix(dm, np.array([0.0]), decoy)
+            except Exception:  # noqa: BLE001
+                pass
         labels, mat = mc.calculate_matrix(dm, np.array([0.0]), axis)
     mat = np.asarray(mat)
     if mat.ndim >= 2 and mat.shape[-2] == t.size:
